@@ -204,6 +204,7 @@ func runC02(c *Ctx, r *Report) {
 	defer c02r10(c, r)
 	defer c02r11(c, r)
 	defer c02r12(c, r)
+	defer c02r13(c, r)
 	defer c02r7(c, r)
 	defer c13r3(c, r) // workers of a cancelled scan must be gone before their slabs are handed out again (crash otherwise)
 	defer func() {
@@ -330,19 +331,23 @@ func runC03(c *Ctx, r *Report) {
 							return (b.Op == token.EQL && v) || (b.Op == token.NEQ && !v)
 						}
 					}
-					// N*M > cap(slab.I16) is false
-					mul, ok := b.X.(*ssa.BinOp)
-					if !ok || mul.Op != token.MUL {
-						return false
+					// N*M > cap(slab.I16) is false — in product form, or in the overflow-free quotient form
+					// N > cap(slab.I16)/M
+					isCapI16 := func(x ssa.Value) bool {
+						c2, ok := x.(*ssa.Call)
+						if !ok || calleeName(c2.Common()) != "builtin.cap" {
+							return false
+						}
+						f2, _ := loadedField(c2.Call.Args[0])
+						return f2 == fI16
 					}
-					c2, ok := b.Y.(*ssa.Call)
-					if !ok || calleeName(c2.Common()) != "builtin.cap" {
-						return false
+					if mul, ok := b.X.(*ssa.BinOp); ok && mul.Op == token.MUL && isCapI16(b.Y) {
+						return (b.Op == token.GTR && !v) || (b.Op == token.LEQ && v)
 					}
-					if f2, _ := loadedField(c2.Call.Args[0]); f2 != fI16 {
-						return false
+					if quo, ok := b.Y.(*ssa.BinOp); ok && quo.Op == token.QUO && isCapI16(quo.X) {
+						return (b.Op == token.GTR && !v) || (b.Op == token.LEQ && v)
 					}
-					return (b.Op == token.GTR && !v) || (b.Op == token.LEQ && v)
+					return false
 				})
 			})
 			r.check(holds, fmt.Sprintf("algo.FuzzyMatchV2:alloc16 #%d after fallback test", n), in.Pos(), v2, "the O(nm) matrices are carved only when slab == nil or N*M <= cap(slab.I16) (else FuzzyMatchV1)", "the V1 fallback for oversized inputs is gone")
